@@ -30,6 +30,7 @@ func propMWU(a *Analysis, r *Registry, which string) {
 	X := b.X
 	S := X.S
 	X.NoInline["stats.labeledMerge"] = true // its results are named by the call: merged, labels
+	X.NoInline["stats.(UDist).CDF"] = true  // the exact distribution function is named by its call (its clauses are C02's)
 	fn := b.Fn("anchor", "stats.MannWhitneyUTest")
 	if fn == nil {
 		return
